@@ -185,9 +185,9 @@ type priceRule struct {
 }
 
 const (
-	ppT  = 1 << 0
-	ppPW = 1 << 1
-	ppAW = 1 << 2 // auction write after price write
+	ppT      = 1 << 0
+	ppPW     = 1 << 1
+	ppAW     = 1 << 2 // auction write after price write
 	ppBadSrc = 1 << 3
 	ppPWzero = 1 << 4
 )
